@@ -13,6 +13,7 @@ func init() { register("C11", checkC11) }
 
 func checkC11(c *Ctx) {
 	r := c.R
+	r.Rule("R04.9", "(shared with C04) every record of a JSON logger is one JSON object: whether the member separator is written does not depend on the attribute")
 	r.Rule("R11.1", "transition functions: the effect of SetJSONMode(m) and SetColorMode(m) on (useJSON,useColor), extracted from their code with m = last variadic argument (default true), equals the property's table: SetJSONMode(m): useJSON:=m, useColor:=false if m else unchanged; SetColorMode(m): useJSON:=false, useColor:=m")
 	r.Rule("R11.2", "getters: JSONMode returns the receiver's useJSON and ColorMode the receiver's useColor")
 	r.Rule("R11.3", "bytes follow the state: setentry derives the encoder's mode bits as jsonMode = useJSON and noColor = !(useColor && !useJSON) from the emitting logger, on every path; these two encoder fields are stored nowhere else; the encoder's top-level format branch tests exactly these fields")
@@ -26,6 +27,9 @@ func checkC11(c *Ctx) {
 	r.Rule("R10.9", "(shared with C10) isolation of anonymous children: two New(\"\") children are distinct loggers (the caller's name is the registry key only when it is a non-empty string)")
 	r.Rule("R04.2", "(shared with C04) a JSON logger emits JSON: in JSON mode everything written verbatim is encoder text, a number, a time, a quoted string or MarshalJSON output (raw MarshalText output is not)")
 	r.Rule("R05.11", "(shared with C05) the shape of the format in force: pairs and separators of the fixed members alternate on every mode-feasible path (no dangling separator)")
+	r.Rule("R02.2", "(shared with C02) every destination gets the record in the format in force: the sink and the fan-out hand each member the payload itself")
+	r.Rule("R13.1", "(shared with C13) as R02.2 for the fan-out loop")
+	r.Rule("R10.3", "(shared with C10) the format a child starts with is inherited before its options run and not afterwards (creation copies the documented settings only, in the documented order)")
 	r.Rule("R11.5", "isolation: no store to useJSON/useColor of another logger (shared with R10.1)")
 	for _, tags := range c.Configs([]string{""}, []string{"", "verbose", "hint"}) {
 		p := c.Prog(tags)
@@ -45,6 +49,10 @@ func checkC11(c *Ctx) {
 		c09Pooled(c, p, m, "R11.6", feasibleModes)
 		c11NoEscapes(c, p, m)
 		childNameDecision(c, p, "R10.9")
+		separatorIndependentOfMember(c, p, "R04.9")
+		c02Sink(c, p, m)
+		c13Fanout(c, p, m)
+		c10Creation(c, p, m)
 		emissionCommon(c, p, m, Mode{true, true}, "R04.2")
 		timeTextQuoted(c, p, m, Mode{true, true}, "R04.2")
 		timeTextQuoted(c, p, m, Mode{false, true}, "R04.2")
@@ -108,6 +116,26 @@ func pickLoop(p *Prog, fn *ssa.Function) (ssa.Value, string) {
 	return nil, why
 }
 
+// isArgCountTest: cond compares len(<the variadic parameter>) with 0 (the "were arguments given" test of the
+// direct-last-element form of the pick; its outcome does not matter once the picked value is assigned).
+func isArgCountTest(cond ssa.Value, fn *ssa.Function) bool {
+	bo, ok := cond.(*ssa.BinOp)
+	if !ok || len(fn.Params) == 0 {
+		return false
+	}
+	vp := fn.Params[len(fn.Params)-1]
+	for _, pr := range [][2]ssa.Value{{bo.X, bo.Y}, {bo.Y, bo.X}} {
+		lc, isL := pr[0].(*ssa.Call)
+		if !isL || !isBuiltinCall(lc, "len") || strip(lc.Common().Args[0]) != ssa.Value(vp) {
+			continue
+		}
+		if z, isC := constInt(pr[1]); isC && (z == 0 || z == 1) {
+			return true
+		}
+	}
+	return false
+}
+
 func c11Transitions(c *Ctx, p *Prog, m *Model) {
 	r := c.R
 	type spec struct {
@@ -147,6 +175,9 @@ func c11Transitions(c *Ctx, p *Prog, m *Model) {
 					if phi, isPhi := ph.(*ssa.Phi); isPhi && bo.Block() == phi.Block() {
 						return "more", true
 					}
+				}
+				if isArgCountTest(cond, fn) {
+					return "more", true
 				}
 				return "", false
 			}, nil)
@@ -452,4 +483,88 @@ func depColourCalls(p *Prog, mr *ModeReach) []string {
 		}
 	}
 	return out
+}
+
+// variadicBoolCases: the effect of a `...bool` setter for the three call forms - no argument, last argument true, last
+// argument false - read off by walking its decisions ("were arguments given" and "the last element" are the only
+// conditions allowed): the receiver-field stores on each path with their constants. ok is false when a path depends
+// on anything else.
+func variadicBoolCases(fn *ssa.Function) (outs [3]string, ok bool) {
+	if fn == nil || len(fn.Params) == 0 || len(fn.Blocks) == 0 || !fn.Signature.Variadic() {
+		return outs, false
+	}
+	vp := fn.Params[len(fn.Params)-1]
+	classify := func(cond ssa.Value) (string, bool) {
+		if bo, isB := cond.(*ssa.BinOp); isB && isArgCountTest(cond, fn) {
+			// orientation: len(b) OP k
+			x, y := bo.X, bo.Y
+			op := bo.Op
+			if _, isC := constInt(x); isC {
+				x, y = y, x
+				switch op {
+				case token.LSS:
+					op = token.GTR
+				case token.GTR:
+					op = token.LSS
+				case token.LEQ:
+					op = token.GEQ
+				case token.GEQ:
+					op = token.LEQ
+				}
+			}
+			_ = x
+			k, _ := constInt(y)
+			switch {
+			case (op == token.GTR && k == 0) || (op == token.NEQ && k == 0) || (op == token.GEQ && k == 1):
+				return "has", true
+			case (op == token.EQL && k == 0) || (op == token.LSS && k == 1) || (op == token.LEQ && k == 0):
+				return "hasnot", true
+			}
+			return "", false
+		}
+		if u, isU := cond.(*ssa.UnOp); isU && u.Op == token.MUL {
+			if ia, isI := u.X.(*ssa.IndexAddr); isI && strip(ia.X) == ssa.Value(vp) {
+				return "last", true
+			}
+		}
+		return "", false
+	}
+	cases := []map[string]bool{
+		{"has": false, "hasnot": true, "last": true},
+		{"has": true, "hasnot": false, "last": true},
+		{"has": true, "hasnot": false, "last": false},
+	}
+	for i, as := range cases {
+		t := walkDecision(fn.Blocks[0], as, classify, nil)
+		if t.Kind != "return" {
+			return outs, false
+		}
+		var parts []string
+		for _, b := range t.Path {
+			for _, in := range b.Instrs {
+				st, isSt := in.(*ssa.Store)
+				if !isSt {
+					continue
+				}
+				fa, isFA := st.Addr.(*ssa.FieldAddr)
+				if !isFA || fa.X != ssa.Value(receiver(fn)) {
+					continue
+				}
+				v := resolveAlong(st.Val, t.Path)
+				desc := "?"
+				if k, isC := constInt(v); isC {
+					desc = fmt.Sprint(k)
+				} else if bv, isB := constBool(v); isB {
+					desc = fmt.Sprint(bv)
+				} else if u, isU := strip(v).(*ssa.UnOp); isU && u.Op == token.MUL {
+					if ia, isI := u.X.(*ssa.IndexAddr); isI && strip(ia.X) == ssa.Value(vp) {
+						desc = fmt.Sprint(as["last"])
+					}
+				}
+				parts = append(parts, fieldOf(fa)+"="+desc)
+			}
+		}
+		outs[i] = strings.Join(parts, ",")
+	}
+	return outs, true
 }
